@@ -131,6 +131,8 @@ class Sim:
             from efootprint.abstract_modeling_classes.source_objects import SourceValue
             from efootprint.constants.units import u
             new = (getattr(self.obj(m_), a_) * SourceValue(float(f_) * u.dimensionless)).set_label(op["label"])
+            from efootprint.abstract_modeling_classes.explainable_object_base_class import Source
+            new.source = Source("user data", None)      # an input given by a user: it cites a source like the others
         if new is None:
             new = self._new_for(op)
         old = o.__dict__.get(op["attr"])
